@@ -142,6 +142,8 @@ def reach_check(u, registry, tu_path, outdir):
     if u.kind == 'bounded' and u.unwind is not None:
         cmd += ['--unwind', str(u.unwind)]
     cmd += [f for f in u.flags if f.startswith('--object-bits') or f.startswith('--unwindset')]
+    if u.backend == 'smt':
+        cmd += ['--cvc5']
     rc, out, dt = sh(cmd, u.reach_timeout)
     if rc == 'timeout':
         return None, 'reach: SAT search for a witness timed out after %ds' % u.reach_timeout
@@ -275,6 +277,11 @@ def run_unit(u, registry, outroot):
         # whichever answers first is taken.
         runs.append(('cvc5-intblast', base + ['--cvc5', '--external-smt2-solver', IB, '--trace', '--json-ui']))
         runs.append(('sat-refuter', base + ['--stop-on-fail', '--trace', '--json-ui']))
+    elif u.backend == 'smt':
+        # cvc5 on the bit-vector + array formula (no int-blasting): much
+        # smaller than CBMC's propositional array encoding for symbolic-size
+        # arrays
+        runs.append(('cvc5-bv', base + ['--cvc5', '--trace', '--json-ui']))
     else:
         runs.append(('sat', base + ['--trace', '--json-ui']))
     for nm, c in runs:
